@@ -156,4 +156,37 @@ example :
         | .error _ => false)
      | .error _ => false) = true := by decide +kernel
 
+/-! ### windows of any size, including those without area (F105h) -/
+
+/-- A window without area: Draw writes nothing, shows no cursor and leaves the terminal alone. -/
+theorem drawG_no_area (e : Emu) (winW winH : Int) (focused : Bool) (h0 : winW ≤ 0 ∨ winH ≤ 0) :
+    drawG true true Fixes.current e winW winH focused = .ok (e, [], none) := by
+  unfold drawG
+  have : (decide (winW ≤ 0) || decide (winH ≤ 0)) = true := by
+    rcases h0 with h0 | h0 <;> simp [h0]
+  simp [this]
+
+/-- Draw as it is now, for EVERY window size up to 65535 (zero and negative included): no panic,
+    every `SetCell` and the cursor inside the window, the emulator stays well-formed. -/
+theorem drawG_clipped {e : Emu} {rows cols : Nat} (h : EmuInv e rows cols) (d : Dim rows cols)
+    (winW winH : Int) (focused : Bool) (hw2 : winW ≤ 65535) (hh2 : winH ≤ 65535) :
+    ∃ r, drawG true true Fixes.current e winW winH focused = .ok r ∧
+      (∀ c ∈ r.2.1, 0 ≤ c.col ∧ c.col < winW ∧ 0 ≤ c.row ∧ c.row < winH) ∧
+      (∀ p, r.2.2 = some p → 0 ≤ p.1 ∧ p.1 < winW ∧ 0 ≤ p.2 ∧ p.2 < winH) ∧
+      ∃ rows' cols', EmuInv r.1 rows' cols' ∧ Dim rows' cols' := by
+  by_cases h0 : winW ≤ 0 ∨ winH ≤ 0
+  · refine ⟨(e, [], none), drawG_no_area e winW winH focused h0, ?_, ?_, rows, cols, h, d⟩
+    · intro c hc; cases hc
+    · intro p hp; cases hp
+  · have hw1 : 1 ≤ winW := by omega
+    have hh1 : 1 ≤ winH := by omega
+    obtain ⟨r, hr, hc, hp, hi, _⟩ := draw_clipped h d winW winH focused hw1 hw2 hh1 hh2
+    refine ⟨r, ?_, hc, hp, _, _, hi, ⟨by omega, by omega, by omega, by omega⟩⟩
+    unfold drawG
+    have : (decide (winW ≤ 0) || decide (winH ≤ 0)) = false := by
+      have a : ¬ winW ≤ 0 := by omega
+      have b : ¬ winH ≤ 0 := by omega
+      simp [a, b]
+    simp [this, hr]
+
 end VaxisModel.Props.C05Draw
